@@ -33,6 +33,7 @@ def modlists(level):
         for t in L1_TEXTS:
             out += [[[t, 1]], [[t, 2]], [[t, 3]]]
         out += [[['Oxidation', 1], ['15.995', 1]], [['1', 1], ['1', 1]], [['Acetyl', 2], ['Phospho', 1]]]
+        out += [[[t, m]] for t in ('Oxidation', '15.995', 'Formula:C2H2O', 'Glycan:Hex') for m in (10, 12, 100)]   # ^n, n >= 10
         return out
     if level == 2:
         out = [[[t, m]] for t in L2_TEXTS for m in (1, 2)]
@@ -64,7 +65,8 @@ ISOTOPES = [['13C'], ['15N'], ['D'], ['13C', '15N'], ['18O'], ['T'], ['2H']]
 def interval_values(n, level):
     spans = [(0, n)] if n == 1 else [(0, 2), (1, 2), (1, n), (0, n), (0, 1)]
     out = []
-    mls = [None] + (modlists(2)[:6] if level <= 2 else [[['1.5', 1]]])
+    # single modifications and a name + number pair (two kinds of value on one interval)
+    mls = [None] + (modlists(2)[:6] + [modlists(2)[-1], [['1.5', 1], ['Phospho', 1], ['Formula:C2H2O', 2]]] if level <= 2 else [[['1.5', 1]]])
     for (a, b) in spans:
         for amb in (False, True):
             for ml in mls:
